@@ -38,6 +38,8 @@ Cat == <<
   [n |-> "vls", e |-> AList(<<S(<<98>>), S(<<97>>)>>)],
   [n |-> "vd",  e |-> ADict(<<S(<<97>>), S(<<98>>)>>, <<AInt(1), AInt(2)>>)],
   [n |-> "vd0", e |-> ADict(<<>>, <<>>)],
+  [n |-> "vr",  e |-> ACall(AVar("range"), <<AInt(3)>>)],
+  [n |-> "vq",  e |-> ACall(AVar("set"), <<AList(<<AInt(2), S(<<97>>)>>)>>)],
   [n |-> "vN",  e |-> ANone],
   [n |-> "vT",  e |-> ABool(TRUE)],
   [n |-> "vF",  e |-> ABool(FALSE)] >>
